@@ -137,6 +137,24 @@ def gen_inputs(run):
         for combo in itertools.product(pieces, repeat=k):
             if any(c.startswith("(*@") for c in combo):
                 out.append(("oscat-markers", "".join(combo).encode()))
+    # statement nesting to depth 12 inside every kind of unit (a function block's body is itself one level in for the renderer),
+    # each statement form, and mixtures
+    forms = {
+        "IF": ("IF x > 0 THEN\n", "END_IF;\n"),
+        "CASE": ("CASE x OF\n1:\n", "END_CASE;\n"),
+        "FOR": ("FOR i := 1 TO 3 DO\n", "END_FOR;\n"),
+        "WHILE": ("WHILE x > 0 DO\n", "END_WHILE;\n"),
+        "REPEAT": ("REPEAT\n", "UNTIL x > 0 END_REPEAT;\n"),
+    }
+    wrappers = [("PROGRAM p\nVAR x : INT; i : INT; END_VAR\n", "END_PROGRAM\n"),
+                ("FUNCTION_BLOCK fb\nVAR x : INT; i : INT; END_VAR\n", "END_FUNCTION_BLOCK\n"),
+                ("FUNCTION fn : INT\nVAR_INPUT x : INT; END_VAR\nVAR i : INT; END_VAR\n", "END_FUNCTION\n")]
+    for head, tail in wrappers:
+        for depth in (6, 7, 11, 12):
+            for name, (op, cl) in forms.items():
+                out.append(("nesting-units", (head + op * depth + "x := 1;\n" + cl * depth + tail).encode()))
+            mix = [rng.choice(list(forms)) for _ in range(depth)]
+            out.append(("nesting-units", (head + "".join(forms[m][0] for m in mix) + "x := 1;\n" + "".join(forms[m][1] for m in reversed(mix)) + tail).encode()))
     for depth in range(1, 13):
         e = "(" * depth + "1" + ")" * depth
         out.append(("nesting", ("PROGRAM p\nVAR x : INT; END_VAR\nx := %s;\nEND_PROGRAM\n" % e).encode()))
